@@ -60,7 +60,10 @@ BASES = {"zip-mbox": "/mixed.zip/inbox", "zip-mbox-msg": "/mixed.zip/inbox|/MBOX
          "zip-script": "/mixed.zip/run.sh", "climbmap": "/climbmap", "zip-exec": "/arc.zip/bin/tool.sh", "zip-pyg": "/arc.zip/bin/run.pyg", "bs-name": "/docs/a.\\b.txt", "bs2-name": "/docs/c\\\\d.txt", "dd-name": "/docs/x..y",
          "file": "/small.txt", "dir": "/docs", "zip": "/arc.zip", "zip-member": "/arc.zip/d/b.txt",
          "mbox": "/mail.mbox", "script": "/script.sh", "pyg": "/hello.pyg", "missing": "/nope",
-         "linkzip": "/linkzip.zip/evil", "linkzip-abs": "/linkzip.zip/abs", "maildir": "/md"}
+         "linkzip": "/linkzip.zip/evil", "linkzip-abs": "/linkzip.zip/abs", "maildir": "/md",
+         # the server's own files inside the tree (written by an earlier listing of the same run)
+         "cachefile": "/docs/.cache.pygopherd.dir", "cachefile-root": "/.cache.pygopherd.dir",
+         "zipcache": "/.cache.pygopherd.zip3.arc.zip.dat", "dir2": "/docs", "dir-root": "/"}
 URL_PROTOS = ["http", "wap", "gemini", "spartan", "https", "head"]
 GOPHER_PROTOS = ["gopher", "gopher+", "gopher$", "gopher!", "sgopher", "sgopher+"]
 
@@ -344,8 +347,7 @@ def _wire(rq, S):
 
 def _norm_selector(once):
     s = once.strip()
-    if s.endswith("/"):
-        s = s[:-1]
+    s = s.rstrip("/")      # every trailing slash is dropped before handlers see the selector
     if not s.startswith("/"):
         s = "/" + s
     return s
@@ -385,7 +387,7 @@ def _classify(path, S, root, allowed):
     return "outside everything the server owns"
 
 
-def _serve_world(sc, S, root, cwd_name, tape):
+def _serve_world(sc, S, root, cwd_name, tape, secret="A"):
     """Serve every request once in this world; returns (responses, logs, monitor violations, counters, run)."""
     cwd = {"outside": os.path.join(S, "outside"), "root": root, "rootX": os.path.join(S, "rootX"),
            "/": os.path.join(S, "outside"), "S": S}[cwd_name]
@@ -393,8 +395,13 @@ def _serve_world(sc, S, root, cwd_name, tape):
     allowed = [sys.prefix, sys.base_prefix, harness.REPO, here, "/verif", "/usr/share/zoneinfo", "/dev/null",
                "/usr/lib", "/lib", "/bin/zcat", "/usr/bin/zcat", "/etc/localtime", "/proc/self"]
     tp = Tape(sc["sched_seed"], replay=tape)
+    # the configuration file lives outside the root as well: what it says beyond the options that shape
+    # responses (a private section, key file paths, the pid file) is part of the outside world
+    conf = {("backend", "dbpassword"): "OUTSIDE-ONLY-%s" % secret,
+            ("pygopherd", "tls_keyfile"): "/etc/ssl/private/%s-key.pem" % secret,
+            ("pygopherd", "pidfile"): "/var/run/%s/pygopherd.pid" % secret}
     run = harness.SimRun(root, tp, sc["sched_seed"], servertype=sc["servertype"], tls=True,
-                         handlers=sc["handlers"], fsroot=S)
+                         handlers=sc["handlers"], fsroot=S, conf=conf)
     resps = []
     logs = []
     bad = []
@@ -471,7 +478,7 @@ def execute(sc, tape=None):
         _build_outside(SA, sc["outsideB"] if sc["outsideB"] != "different" else "other")
         rootB = rootA
         SB = SA
-        rb, lb, badb, cb, runb, fsb = _serve_world(sc, SB, rootB, sc["cwds"][1], tape)
+        rb, lb, badb, cb, runb, fsb = _serve_world(sc, SB, rootB, sc["cwds"][1], tape, secret="B")
         counters = common.merge_counters(ca, cb)
         counters["worlds_compared"] = 1
         viol = None
